@@ -299,7 +299,17 @@ fn one_case(seed: u64, i: u64, rep: &mut Report) {
     // its own decoder, as a second entry of the configuration file would - then a request that is valid THERE is
     // presented HERE. Whatever the process keeps per protocol rather than per inbound shows up as an item.
     for n_other in [0usize, 2] {
-        let other = Cfg::random(&mut rng, proto, n_other);
+        // (a second inbound with a credential of its OWN: short random passwords do collide now and then)
+        let mut other = Cfg::random(&mut rng, proto, n_other);
+        for _ in 0..8 {
+            if other.password != cfg.password && other.uuids.iter().all(|u| !cfg.uuids.contains(u)) {
+                break;
+            }
+            other = Cfg::random(&mut rng, proto, n_other);
+        }
+        if other.password == cfg.password || other.uuids.iter().any(|u| cfg.uuids.contains(u)) {
+            continue;
+        }
         let vopt = *rng.pick(&refimpl::vmess::VALID_OPTION_MASKS);
         let used_there = (|| {
             let sh = real::server_shared(&other).ok()?;
